@@ -1402,7 +1402,8 @@ class Mps(MatrixProduct):
                     mps[imps] = mps_t
             mps._switch_direction()
 
-        steps_stat = stats.describe(local_steps)
+        # the variance in the debug statistics needs at least two samples (short chains can have one)
+        steps_stat = stats.describe(local_steps) if len(local_steps) > 1 else None
         logger.debug(f"TDVP-PS Krylov space: {steps_stat}")
         mps.evolve_config.stat = steps_stat
 
@@ -1515,7 +1516,8 @@ class Mps(MatrixProduct):
 
             mps._switch_direction()
 
-        steps_stat = stats.describe(local_steps)
+        # the variance in the debug statistics needs at least two samples (short chains can have one)
+        steps_stat = stats.describe(local_steps) if len(local_steps) > 1 else None
         logger.debug(f"TDVP-PS Krylov space: {steps_stat}")
         mps.evolve_config.stat = steps_stat
         #logger.debug(f"current mps: {mps}")
